@@ -201,11 +201,21 @@ class Behavior(_IModel):
         # the local problem collapses to one scalar when the surface is quadratic and nothing
         # else evolves; the decomposition it runs in is built here, once, not per Gauss point
         self.solver = solver
-        self.__eigen = (
-            _spectral.Build(*elastic.Get_sqrt_C_S(), yieldSurface.P)
-            if self.__Is_reducible()
-            else None
-        )
+        self.__eigen_C: Optional[_types.FloatArray] = None
+        self.__eigen = self.__Get_eigen()
+
+    def __Get_eigen(self):
+        """The decomposition the spectral return runs in, or None when it does not apply.\n
+        It is built once per elastic stiffness, and again when the elastic law has changed."""
+        if not self.__Is_reducible():
+            return None
+        C = self.C
+        if self.__eigen_C is None or not np.array_equal(self.__eigen_C, C):
+            self.__eigen = _spectral.Build(
+                *self.__elastic.Get_sqrt_C_S(), self.__yield.P
+            )
+            self.__eigen_C = C
+        return self.__eigen
 
     def __Is_reducible(self) -> bool:
         """Whether the spectral return applies: quadratic surface, homogeneous C, nothing else."""
@@ -422,7 +432,7 @@ class Behavior(_IModel):
                 zOld_e_pg,
                 np.ones((Ne, nPg), dtype=bool),
             )
-        if self.__eigen is not None:
+        if self.__Get_eigen() is not None:
             return self.__Spectral(eps6_e_pg, zOld_e_pg, C6_e_pg, dt)
         return self.__Flow(eps6_e_pg, zOld_e_pg, C6_e_pg, dt)
 
